@@ -14,6 +14,7 @@
 From Coq Require Import ZArith List Bool Reals. Import ListNotations.
 From PV Require Import Num NumR model.Geom proofs.LatticeFacts proofs.SiteFacts proofs.OverlapFacts proofs.ConvexFacts proofs.PackingFacts proofs.MotionFacts.
 From PV Require Import gen.GenFns model.Iter model.Pipeline proofs.ListLemmas proofs.SrcShapes.
+From PV Require Import proofs.SourceHeadlinesShapes.
 
 Theorem C12_seg_yes_gives_common_point :
   forall s o : segR, seg_intersects NumR s o = true -> exists ta tb : R, (0 <= ta <= 1)%R /\ (0
@@ -161,4 +162,28 @@ Theorem C12_shapes_source_translated :
     translated_gen_circle_overlap = true /\ translated_gen_mol_area = true.
 Proof. exact shapes_source_translated. Qed.
 Print Assumptions C12_shapes_source_translated.
+
+
+Theorem C12_source_mol_test_exact :
+  forall l m : list discR, Forall (fun d : discR => (0 < dr NumR d)%R) l -> Forall (fun d :
+    discR => (0 < dr NumR d)%R) m -> gen_mol_intersects NumR l m = true <-> (exists p : R * R,
+    in_mol l p /\ in_mol m p).
+Proof. exact source_mol_test_exact. Qed.
+Print Assumptions C12_source_mol_test_exact.
+
+Theorem C12_source_poly_yes_gives_common_point :
+  forall l m : list segR, gen_poly_intersects NumR l m = true -> exists (s o : segR) (ta tb :
+    R), In s l /\ In o m /\ (0 <= ta <= 1)%R /\ (0 <= tb <= 1)%R /\ (sx1 NumR s + ta * (sx2 NumR
+    s - sx1 NumR s))%R = (sx1 NumR o + tb * (sx2 NumR o - sx1 NumR o))%R /\ (sy1 NumR s + ta *
+    (sy2 NumR s - sy1 NumR s))%R = (sy1 NumR o + tb * (sy2 NumR o - sy1 NumR o))%R.
+Proof. exact source_poly_yes_gives_common_point. Qed.
+Print Assumptions C12_source_poly_yes_gives_common_point.
+
+Theorem C12_source_convex_overlap_detected :
+  forall (sP sQ : R) (P Q : list segR) (x : pt), convex sP P -> convex sQ Q -> closed P ->
+    closed Q -> strictly_inside sP P x -> strictly_inside sQ Q x -> (exists e : segR, In e P /\
+    ~ strictly_inside sQ Q (seg_start e)) -> (exists f : segR, In f Q /\ ~ strictly_inside sP P
+    (seg_start f)) -> gen_poly_intersects NumR P Q = true.
+Proof. exact source_convex_overlap_detected. Qed.
+Print Assumptions C12_source_convex_overlap_detected.
 
